@@ -74,7 +74,11 @@ def run_ops(ops, env):
             env["rec"]["xps"].append(xrec)
             xp = None
             try:
-                with experiment(env["wd"], op["name"], launcher=X.make_launcher(env["wd"])) as xp:
+                kwx = {}
+                if op.get("mode"):
+                    from experimaestro.scheduler.workspace import RunMode
+                    kwx["run_mode"] = getattr(RunMode, op["mode"])
+                with experiment(env["wd"], op["name"], launcher=X.make_launcher(env["wd"]), **kwx) as xp:
                     V.W.events.append(("xp_enter", op["name"], env["proc"].pid))
                     env["xps"].append(xp)
                     env.setdefault("xrecs", []).append(xrec)
